@@ -273,6 +273,7 @@ func sym(s string) string {
 
 // registries shared by all engines of a run (ids must be global so that terms are comparable)
 type Registry struct {
+	fns     map[string]int
 	mu      sync.Mutex
 	tags    map[string]int
 	tagType map[int]types.Type
@@ -441,4 +442,21 @@ func sortedKeys[V any](m map[string]V) []string {
 	}
 	sort.Strings(ks)
 	return ks
+}
+
+
+// fnID: a numeral standing for the address of a top-level function (disjoint from string ids
+// and far above realistic object addresses is not needed: only equality is used).
+func (r *Registry) fnID(name string) string {
+	r.mu.Lock()
+	defer r.mu.Unlock()
+	if r.fns == nil {
+		r.fns = map[string]int{}
+	}
+	id, ok := r.fns[name]
+	if !ok {
+		id = len(r.fns) + 1
+		r.fns[name] = id
+	}
+	return fmt.Sprint(1<<40 + id)
 }
